@@ -7,7 +7,8 @@
        patching every callee of a method exists and is strictly shallower (C06);
      - patching keeps addresses, sizes and instruction counts (C04). *)
 From Coq Require Import ZArith List String Bool Lia.
-From Gigue Require Import Types Bits Isa Enc EncProofs GenTables Builder Samplers SamplerProofs Generator GenLemmas GenWF.
+From Coq Require Import SpecFloat.
+From Gigue Require Import Types Bits Isa Enc EncProofs GenTables Builder Samplers SamplerProofs FloatSign Generator GenLemmas GenWF.
 Import ListNotations.
 Open Scope Z_scope.
 
@@ -238,22 +239,45 @@ Proof.
   eapply ztp_pos. exact E.
 Qed.
 
+(* ------------------------------------------------------------------ accepted Gaussian variates *)
+Lemma accepted_unit x :
+  valid_binary prec emax x = true -> fle fzero x && fle x fone = true -> unit_float x.
+Proof.
+  intros Hv H. apply andb_prop in H. destruct H as [H0 H1].
+  destruct x as [s|[]| |[] m e]; try discriminate.
+  - left. exists s. reflexivity.
+  - right. exists m, e. cbn [valid_binary] in Hv. auto.
+Qed.
+
+Lemma m_trunc_norm_valid P fuel mu sigma :
+  stable P -> hoare P (m_trunc_norm fuel mu sigma) (fun x s => P s /\ unit_float x).
+Proof.
+  intros St. induction fuel as [|k IH]; cbn [m_trunc_norm]; [apply hoare_fail|].
+  eapply hoare_bind; [apply draw_gauss_valid; exact St|]. intros x. apply hoare_pure_pre. intros Hx.
+  destruct (fle fzero x && fle x fone) eqn:E; [|exact IH].
+  intros s H. cbn. split; [exact H|]. apply accepted_unit; assumption.
+Qed.
+
 (* ------------------------------------------------------------------ sizing and filling *)
 Definition fresh (c : config) (addr : Z) (m : method) : Prop :=
-  shaped c m /\ m_addr m = addr /\ m_instrs m = [] /\ m_callees m = [].
+  shaped c m /\ m_addr m = addr /\ m_instrs m = [] /\ m_callees m = [] /\ 0 <= m_body m.
 
 Lemma size_method_spec2 P c addr leaf :
-  stable P ->
-  hoare P (size_method c addr leaf) (fun m s => P s /\ fresh c addr m /\ (leaf = true -> m_depth m = 0)).
+  stable P -> 0 <= method_size c ->
+  hoare P (size_method c addr leaf)
+        (fun m s => P s /\ fresh c addr m /\ (leaf = true -> m_depth m = 0)).
 Proof.
-  intros St. unfold size_method.
-  eapply hoare_bind; [apply m_trunc_norm_spec; exact St|]. intros v.
+  intros St Hms. unfold size_method.
+  eapply hoare_bind; [apply m_trunc_norm_valid; exact St|]. intros v. apply hoare_pure_pre. intros Hv.
   eapply hoare_bind; [apply draw_random_spec; exact St|]. intros us.
-  eapply hoare_bind; [apply hoare_lift|]. intros body. apply hoare_pure_pre. intros _.
+  eapply hoare_bind; [apply hoare_lift|]. intros body. apply hoare_pure_pre. intros Hbody.
+  assert (Hb0 : 0 <= body).
+  { destruct (body_size_of (method_size c) us v) as [b|] eqn:Eb; cbn in Hbody; [|discriminate].
+    inversion Hbody; subst b. eapply body_size_nonneg; eassumption. }
   destruct leaf.
   - apply hoare_lift_post. intros m Hm s H. split; [exact H|].
-    destruct (new_method_shaped c addr body 0 0 m ltac:(lia) ltac:(lia) Hm) as (S1 & S2 & S3 & S4 & S5 & _).
-    split; [exact (conj S1 (conj S2 (conj S3 S4)))|]. intros _. exact S5.
+    destruct (new_method_shaped c addr body 0 0 m ltac:(lia) ltac:(lia) Hm) as (S1 & S2 & S3 & S4 & S5 & _ & S7).
+    split; [refine (conj S1 (conj S2 (conj S3 (conj S4 _)))); rewrite S7; exact Hb0|]. intros _. exact S5.
   - eapply hoare_bind; [apply m_trunc_norm_spec; exact St|]. intros occ.
     eapply hoare_bind; [apply hoare_lift|]. intros calls. apply hoare_pure_pre. intros _.
     eapply hoare_bind with (Q := fun d s => P s /\ 0 <= d /\ (calls <= 0 -> d = 0)).
@@ -264,8 +288,8 @@ Proof.
     intros depth. apply hoare_pure_pre2. intros Hd Hc.
     eapply hoare_bind; [apply hoare_lift|]. intros m. apply hoare_pure_pre. intros Hm.
     destruct (body =? 0); [apply hoare_fail|]. intros s H. cbn. split; [exact H|].
-    destruct (new_method_shaped c addr body calls depth m Hd Hc Hm) as (S1 & S2 & S3 & S4 & _).
-    split; [exact (conj S1 (conj S2 (conj S3 S4)))|]. intros E; discriminate.
+    destruct (new_method_shaped c addr body calls depth m Hd Hc Hm) as (S1 & S2 & S3 & S4 & _ & _ & S7).
+    split; [refine (conj S1 (conj S2 (conj S3 (conj S4 _)))); rewrite S7; exact Hb0|]. intros E; discriminate.
 Qed.
 
 Lemma fill_body_len P c n : forall rem,
@@ -281,17 +305,18 @@ Qed.
 
 (* an element of the method list after filling: header fixed, instruction count as budgeted *)
 Definition filled (m : method) : Prop :=
-  m_callees m = [] /\ zlen (m_instrs m) = m_pro m + Z.max 0 (m_body m) + m_epi m.
+  m_callees m = [] /\ zlen (m_instrs m) = m_pro m + Z.max 0 (m_body m) + m_epi m /\ 0 <= m_body m.
 
 Lemma fill_method_spec2 P c m :
-  stable P -> cfg_facts c -> shaped c m ->
+  stable P -> cfg_facts c -> shaped c m -> 0 <= m_body m ->
   hoare P (fill_method c m) (fun m' s => P s /\ same_header m m' /\ filled m').
 Proof.
-  intros St F Sh. unfold fill_method.
+  intros St F Sh Hb0. unfold fill_method.
   eapply hoare_bind; [apply hoare_lift|]. intros pro. apply hoare_pure_pre. intros Hpro.
   eapply hoare_bind; [apply fill_body_len; assumption|]. intros body. apply hoare_pure_pre. intros Hbody.
   eapply hoare_bind; [apply hoare_lift|]. intros epi. apply hoare_pure_pre. intros Hepi.
   intros s H. cbn. split; [exact H|]. split; [repeat split|]. split; [reflexivity|]. cbn [m_instrs m_pro m_body m_epi].
+  split; [|exact Hb0].
   destruct (frame_lengths_at _ _ _ _ Hpro Hepi) as [Lp Le].
   rewrite !zlen_app, Lp, Le, (sh_pro c m Sh), (sh_epi c m Sh). unfold zlen at 1. rewrite Hbody. lia.
 Qed.
@@ -307,7 +332,7 @@ Record P1 (c : config) (start addr : Z) (s : gstate) : Prop := {
 }.
 
 Lemma P1_stable c start addr : stable (P1 c start addr).
-Proof. intros s s' [A B C D] (E1 & E2 & E3). constructor; rewrite ?E1, ?E2, ?E3; assumption. Qed.
+Proof. intros s s' [A B C D] (E1 & E2 & E3) _. constructor; rewrite ?E1, ?E2, ?E3; assumption. Qed.
 
 Lemma depth_ext_app (ms : list method) new :
   forall id m, nth_error ms id = Some m -> exists m', nth_error (ms ++ new) id = Some m' /\ m_depth m' = m_depth m.
@@ -342,27 +367,28 @@ Lemma chained_sum ms a b : chained ms a b -> b = a + sum_totals ms * 4.
 Proof. intros H. induction H; cbn [sum_totals fold_right]; [lia|]. fold (sum_totals tl). lia. Qed.
 
 Lemma size_cases_spec2 P c n : forall addr,
-  stable P ->
+  stable P -> 0 <= method_size c ->
   hoare P (size_cases c n addr)
-        (fun ms s => P s /\ List.length ms = n /\ Forall (fun m => shaped c m /\ m_instrs m = [] /\ m_callees m = []) ms
+        (fun ms s => P s /\ List.length ms = n /\
+                     Forall (fun m => shaped c m /\ m_instrs m = [] /\ m_callees m = [] /\ 0 <= m_body m) ms
                      /\ exists b, chained ms addr b).
 Proof.
-  induction n as [|k IH]; intros addr St; cbn [size_cases].
+  induction n as [|k IH]; intros addr St Hms; cbn [size_cases].
   - intros s H. cbn. split; [exact H|]. split; [reflexivity|]. split; [constructor|]. exists addr. constructor.
-  - eapply hoare_bind; [apply size_method_spec2; exact St|]. intros m. apply hoare_pure_pre2. intros (S1 & S2 & S3 & S4) _.
-    eapply hoare_bind; [apply IH; exact St|]. intros rest.
+  - eapply hoare_bind; [apply size_method_spec2; assumption|]. intros m. apply hoare_pure_pre2. intros (S1 & S2 & S3 & S4 & S5) _.
+    eapply hoare_bind; [apply IH; assumption|]. intros rest.
     intros s (H & Hl & Hf & b & Hc). cbn. split; [exact H|]. split; [cbn; congruence|].
     split; [constructor; [auto|exact Hf]|]. exists b. constructor; assumption.
 Qed.
 
 Lemma fill_cases_spec2 P c : forall ms a b,
-  stable P -> cfg_facts c -> Forall (fun m => shaped c m /\ m_instrs m = [] /\ m_callees m = []) ms -> chained ms a b ->
+  stable P -> cfg_facts c -> Forall (fun m => shaped c m /\ m_instrs m = [] /\ m_callees m = [] /\ 0 <= m_body m) ms -> chained ms a b ->
   hoare P (fill_cases c ms)
         (fun ms' s => P s /\ List.length ms' = List.length ms /\ Forall (mok c) ms' /\ chained ms' a b).
 Proof.
   induction ms as [|m tl IH]; intros a b St F Hf Hc; cbn [fill_cases].
   - intros s H. cbn. split; [exact H|]. split; [reflexivity|]. split; [constructor|exact Hc].
-  - inversion Hf as [|? ? (Sh & _ & _) Hf']; subst. inversion Hc as [|? ? ? ? Ha Hc']; subst.
+  - inversion Hf as [|? ? (Sh & _ & _ & Hb0) Hf']; subst. inversion Hc as [|? ? ? ? Ha Hc']; subst.
     eapply hoare_bind; [apply fill_method_spec2; assumption|]. intros m'. apply hoare_pure_pre2. intros Hh Hfl.
     eapply hoare_bind; [eapply IH; eassumption|]. intros rest.
     intros s (H & Hl & Hm & Hch). cbn. split; [exact H|]. split; [cbn; congruence|].
@@ -459,20 +485,27 @@ Proof.
   replace (List.length ms + i - List.length ms)%nat with i by lia. exact Hi.
 Qed.
 
+Definition PL (c : config) (start addr : Z) (n0 : nat) (s : gstate) : Prop :=
+  P1 c start addr s /\ List.length (g_methods s) = n0.
+
+Lemma PL_stable c start addr n0 : stable (PL c start addr n0).
+Proof.
+  intros s s' [H1 H2] E Sx. split; [eapply P1_stable; eassumption|]. destruct E as (E & _). congruence.
+Qed.
+
 Lemma add_element_spec2 c start addr remaining n0 :
-  cfg_facts c -> 1 <= remaining ->
-  hoare (fun s => P1 c start addr s /\ List.length (g_methods s) = n0)
+  cfg_facts c -> 0 <= method_size c -> 1 <= remaining ->
+  hoare (PL c start addr n0)
         (add_element c addr remaining)
         (fun r s => P1 c start (addr + fst r * 4) s /\
-                    Z.of_nat (List.length (g_methods s)) = Z.of_nat n0 + snd r /\ 1 <= snd r <= remaining).
+                     Z.of_nat (List.length (g_methods s)) = Z.of_nat n0 + snd r /\ 1 <= snd r <= remaining).
 Proof.
-  intros F Hrem. unfold add_element.
-  assert (St : stable (fun s => P1 c start addr s /\ List.length (g_methods s) = n0)).
-  { intros s s' [H1 H2] E. split; [eapply P1_stable; eassumption|]. destruct E as (E & _). congruence. }
+  intros F Hms Hrem. unfold add_element.
+  pose proof (PL_stable c start addr n0) as St.
   eapply hoare_bind; [apply draw_choices_spec; exact St|]. intros ks. apply hoare_pure_pre2. intros _ _.
   destruct ks as [|k [|? ?]]; cbv beta iota; [apply hoare_fail| |destruct k; apply hoare_fail].
   assert (PIC :
-    hoare (fun s => P1 c start addr s /\ List.length (g_methods s) = n0)
+    hoare (PL c start addr n0)
       (let* z := m_ztp c in
        let cases := Z.min z remaining in
        let maddr := addr + switch_size cases * 4 in
@@ -484,10 +517,10 @@ Proof.
        let* _ := register_methods ids ms' in
        ret (switch_size cases + sum_totals ms', cases))
       (fun r s => P1 c start (addr + fst r * 4) s /\
-                  Z.of_nat (List.length (g_methods s)) = Z.of_nat n0 + snd r /\ 1 <= snd r <= remaining)).
+                   Z.of_nat (List.length (g_methods s)) = Z.of_nat n0 + snd r /\ 1 <= snd r <= remaining)).
   { eapply hoare_bind; [apply m_ztp_spec2; exact St|]. intros z. apply hoare_pure_pre. intros Hz. cbv zeta.
     set (cases := Z.min z remaining). assert (Hcases : 1 <= cases <= remaining) by (unfold cases; lia).
-    eapply hoare_bind; [apply size_cases_spec2; exact St|]. intros ms.
+    eapply hoare_bind; [apply size_cases_spec2; assumption|]. intros ms.
     apply hoare_pure_pre. intros (Hl & Hf & b & Hc).
     eapply hoare_bind; [eapply fill_cases_spec2; eassumption|]. intros ms'.
     apply hoare_pure_pre. intros (Hl' & Hm' & Hc').
@@ -506,7 +539,7 @@ Proof.
     + rewrite (switch_instrs_len _ _ _ _ _ Hsw). unfold switch_size. unfold zlen in Hz'. lia.
     + apply Hd; [eapply depth_ok_ext; [apply depth_ext_app|apply (p1_depths _ _ _ _ HP)]|apply Forall2_seq_app]. }
   destruct k as [|p|p]; [|exact PIC|exact PIC].
-  eapply hoare_bind; [apply size_method_spec2; exact St|]. intros m. apply hoare_pure_pre2. intros (S1 & S2 & S3 & S4) _.
+  eapply hoare_bind; [apply size_method_spec2; assumption|]. intros m. apply hoare_pure_pre2. intros (S1 & S2 & S3 & S4 & S5) _.
   eapply hoare_bind; [apply fill_method_spec2; assumption|]. intros m'. apply hoare_pure_pre2. intros Hh Hfl.
   intros s [HP Hn]. unfold mbind, add_method, push_element, register_method, ret.
   cbn [fst snd g_script g_methods g_depths g_elements].
@@ -520,27 +553,30 @@ Lemma hoare_pre_fact {A} (P : gstate -> Prop) (phi : Prop) (m : M A) Q :
 Proof. intros H1 H2 s HP. exact (H2 (H1 s HP) s HP). Qed.
 
 Lemma fill_loop_spec2 c start fuel : forall addr count,
-  cfg_facts c ->
+  cfg_facts c -> 0 <= method_size c ->
   hoare (fun s => P1 c start addr s /\ Z.of_nat (List.length (g_methods s)) = count /\ count <= c_nb_methods c)
         (fill_loop c fuel addr count)
         (fun e s => P1 c start e s /\ Z.of_nat (List.length (g_methods s)) = c_nb_methods c).
 Proof.
-  induction fuel as [|k IH]; intros addr count F; cbn [fill_loop].
+  induction fuel as [|k IH]; intros addr count F Hms; cbn [fill_loop].
   - destruct (Z.leb_spec (c_nb_methods c) count); [|apply hoare_fail].
     intros s (H1 & H2 & H3). cbn. split; [exact H1|lia].
   - destruct (Z.leb_spec (c_nb_methods c) count) as [Hle|Hlt].
     + intros s (H1 & H2 & H3). cbn. split; [exact H1|lia].
     + apply hoare_pre_fact with (phi := 0 <= count); [intros s (_ & H2 & _); lia|]. intros Hc0.
       eapply hoare_bind.
-      * eapply hoare_conseq with (P := fun s => P1 c start addr s /\ List.length (g_methods s) = Z.to_nat count);
-          [|intros a s0 H0; exact H0|apply (add_element_spec2 c start addr (c_nb_methods c - count)); [exact F|lia]].
+      * eapply hoare_conseq with (P := PL c start addr (Z.to_nat count));
+          [|intros a s0 H0; exact H0|apply (add_element_spec2 c start addr (c_nb_methods c - count)); [exact F|exact Hms|lia]].
         intros s (H1 & H2 & H3). split; [exact H1|lia].
       * intros [size nm]. cbn [fst snd].
-        eapply hoare_conseq; [|intros a s0 H0; exact H0|apply (IH (addr + size * 4) (count + nm) F)].
-        intros s (H1 & H2 & H3). split; [exact H1|]. split; lia.
+        eapply hoare_conseq; [|intros a s0 H0; exact H0|apply (IH (addr + size * 4) (count + nm) F Hms)].
+        intros s (H1 & H2 & H3). split; [exact H1|split; lia].
 Qed.
 
 Definition empty_objects (s : gstate) : Prop := g_methods s = [] /\ g_depths s = [] /\ g_elements s = [].
+
+Lemma empty_objects_stable : stable empty_objects.
+Proof. intros s s' (A & B & C) (E1 & E2 & E3) _. unfold empty_objects. rewrite E1, E2, E3. auto. Qed.
 
 Lemma P1_empty c start s : empty_objects s -> P1 c start start s.
 Proof.
@@ -548,14 +584,13 @@ Proof.
 Qed.
 
 Lemma fill_jit_code_spec2 c start :
-  cfg_facts c -> 1 <= c_nb_methods c ->
+  cfg_facts c -> 0 <= method_size c -> 1 <= c_nb_methods c ->
   hoare empty_objects (fill_jit_code c start)
         (fun e s => P1 c start e s /\ Z.of_nat (List.length (g_methods s)) = c_nb_methods c).
 Proof.
-  intros F Hnb. unfold fill_jit_code.
-  assert (St : stable empty_objects).
-  { intros s s' (A & B & C) (E1 & E2 & E3). unfold empty_objects. rewrite E1, E2, E3. auto. }
-  eapply hoare_bind; [apply size_method_spec2; exact St|]. intros m. apply hoare_pure_pre2. intros (S1 & S2 & S3 & S4) Hleaf.
+  intros F Hms Hnb. unfold fill_jit_code.
+  pose proof empty_objects_stable as St.
+  eapply hoare_bind; [apply size_method_spec2; assumption|]. intros m. apply hoare_pure_pre2. intros (S1 & S2 & S3 & S4 & S5) Hleaf.
   eapply hoare_bind; [apply fill_method_spec2; assumption|]. intros m'. apply hoare_pure_pre2. intros Hh Hfl.
   intros s He. unfold mbind at 1 2 3. unfold add_method, push_element, register_method.
   cbn [fst snd g_script g_methods g_depths g_elements].
@@ -564,13 +599,13 @@ Proof.
   assert (Ha : m_addr m' = start). { destruct Hh as (E & _). congruence. }
   pose proof (P1_add_method c start start s m' HP (conj (same_header_shaped c m m' Hh S1) Hfl) Ha) as HP'.
   rewrite Hd in HP'.
-  refine (fill_loop_spec2 c start _ _ 1 F _ _).
+  refine (fill_loop_spec2 c start _ _ 1 F Hms _ _).
   split; [exact HP'|]. cbn [g_methods]. destruct He as (E1 & _). rewrite E1. cbn. lia.
 Qed.
 
 (* ------------------------------------------------------------------ phase 2 *)
 Definition mok2 (c : config) (m : method) : Prop :=
-  shaped c m /\ zlen (m_instrs m) = m_pro m + Z.max 0 (m_body m) + m_epi m.
+  shaped c m /\ zlen (m_instrs m) = m_pro m + Z.max 0 (m_body m) + m_epi m /\ 0 <= m_body m.
 
 (* patched (or nothing to patch): the declared number of callees *)
 Definition done (m : method) : Prop :=
@@ -703,7 +738,7 @@ Qed.
 Definition objs_are (ms : list method) (d : list (Z * list nat)) (es : list elt) (s : gstate) : Prop :=
   g_methods s = ms /\ g_depths s = d /\ g_elements s = es.
 Lemma objs_are_stable ms d es : stable (objs_are ms d es).
-Proof. intros s s' (A & B & C) (E1 & E2 & E3). unfold objs_are. rewrite E1, E2, E3. auto. Qed.
+Proof. intros s s' (A & B & C) (E1 & E2 & E3) _. unfold objs_are. rewrite E1, E2, E3. auto. Qed.
 
 Lemma get_methods_objs ms d es ids :
   hoare (objs_are ms d es) (get_methods ids) (fun _ s => objs_are ms d es s).
@@ -734,7 +769,7 @@ Proof.
   intros HP Hpend Hn Hdep. pose proof (objs_are_stable ms d es) as St. cbv zeta.
   assert (Hm2 : mok2 c m).
   { pose proof (p2_methods _ _ _ _ _ _ HP) as Ms. rewrite Forall_forall in Ms. apply Ms. eapply nth_error_In. exact Hn. }
-  destruct Hm2 as [Sh Len].
+  destruct Hm2 as [Sh [Len Hbody]].
   eapply hoare_bind; [apply draw_choices_spec; exact St|]. intros picks. apply hoare_pure_pre2. intros Hlen Hrange.
   destruct (nat_mem id _); [apply hoare_fail|].
   eapply hoare_bind; [apply get_methods_objs|]. intros cms.
@@ -751,7 +786,7 @@ Proof.
   split.
   - eapply P2o_set; [exact HP|exact Hn|exact Hh| |].
     + split; [eapply same_header_shaped; eassumption|]. unfold m'. cbn [m_instrs m_pro m_body m_epi].
-      rewrite <- Len. eapply (patch_calls_len c (m_addr m) (m_pro m) (m_pro m + m_body m)); [| | |exact Hins].
+      split; [|exact Hbody]. rewrite <- Len. eapply (patch_calls_len c (m_addr m) (m_pro m) (m_pro m + m_body m)); [| | |exact Hins].
       * rewrite (sh_pro c m Sh). exact Hp0.
       * rewrite Len, (sh_epi c m Sh). lia.
       * eapply Forall_impl; [|exact Hidx]. intros i [Hi _]. cbv beta. rewrite <- (sh_cs c m Sh). lia.
@@ -863,14 +898,13 @@ Proof.
 Qed.
 
 Theorem gen_main_wf c :
-  cfg_facts c -> 1 <= c_nb_methods c ->
+  cfg_facts c -> 0 <= method_size c -> 1 <= c_nb_methods c ->
   hoare empty_objects (gen_main c) (fun img _ => image_wf c img).
 Proof.
-  intros F Hnb. unfold gen_main.
+  intros F Hms Hnb. unfold gen_main.
   destruct (c_jit_start c <? c_int_start c); [apply hoare_fail|].
   destruct (c_nb_methods c =? 0); [apply hoare_fail|].
-  assert (St : stable empty_objects).
-  { intros s s' (A & B & C) (E1 & E2 & E3). unfold empty_objects. rewrite E1, E2, E3. auto. }
+  pose proof empty_objects_stable as St.
   eapply hoare_bind with (Q := fun _ s => empty_objects s).
   { destruct (uses_tramp (c_variant c)).
     - eapply hoare_bind; [apply hoare_lift|]. intros t1. apply hoare_pure_pre. intros _.
@@ -885,7 +919,7 @@ Proof.
     intros s [H1 H2]. apply P1_P2; assumption. }
   intro.
   assert (St2 : stable (fun s => P2 c start e s /\ pending [] (g_methods s))).
-  { intros s s' [A B] (E1 & E2 & E3). unfold P2. rewrite E1, E2, E3. split; assumption. }
+  { intros s s' [A B] (E1 & E2 & E3) _. unfold P2. rewrite E1, E2, E3. split; assumption. }
   eapply hoare_bind; [apply fill_interpretation_loop_stable; exact St2|]. intros ints.
   apply hoare_pure_pre. intros Hfit.
   intros s [HP Hpend]. cbv beta zeta.
@@ -917,10 +951,11 @@ Proof.
 Qed.
 
 Theorem run_gen_wf c script img rest :
-  cfg_facts c -> 1 <= c_nb_methods c -> run_gen c script = OK (img, rest) -> image_wf c img.
+  cfg_facts c -> 0 <= method_size c -> 1 <= c_nb_methods c ->
+  run_gen c script = OK (img, rest) -> image_wf c img.
 Proof.
-  intros F Hnb H. unfold run_gen in H.
-  pose proof (gen_main_wf c F Hnb (mk_gs script [] [] []) (conj eq_refl (conj eq_refl eq_refl))) as G.
+  intros F Hms Hnb H. unfold run_gen in H.
+  pose proof (gen_main_wf c F Hms Hnb (mk_gs script [] [] []) (conj eq_refl (conj eq_refl eq_refl))) as G.
   destruct (gen_main c (mk_gs script [] [] [])) as [[im s]|e]; [|discriminate].
   inversion H; subst. exact G.
 Qed.
